@@ -515,6 +515,10 @@ func rerunCrashed(opt Options, e Engine, idx int) (*Violation, string) {
 	args := append([]string{"one"}, baseArgs(opt)...)
 	args = append(args, "-idx", strconv.Itoa(idx))
 	cmd := exec.Command(selfExe(), args...)
+	dump := filepath.Join(VerifDir(), "build", fmt.Sprintf("trace-%d-%d.json", os.Getpid(), idx))
+	os.Remove(dump)
+	defer os.Remove(dump)
+	cmd.Env = append(os.Environ(), "VERIF_DUMP_TRACE="+dump)
 	var stderr bytes.Buffer
 	cmd.Stderr = &limitedWriter{w: &stderr, n: 1 << 20}
 	cmd.Stdout = io.Discard
@@ -558,7 +562,29 @@ func rerunCrashed(opt Options, e Engine, idx int) (*Violation, string) {
 	if !strings.Contains(txt, "fatal error:") && !strings.Contains(txt, "goroutine ") {
 		return nil, "died again without a Go runtime report"
 	}
-	fn := ""
+	fn, first := fatalFrame(txt)
+	if fn == "" {
+		return nil, "runtime report names no mltwist frame first"
+	}
+	v := &Violation{Property: opt.Prop, Oracle: "no-crash", Signature: "fatal/" + fn, Event: -1,
+		Detail: "process died with a Go runtime fatal error: " + first}
+	// A fatal error kills every process that executes the trace, the
+	// minimiser included: the replay file holds the trace as generated (the
+	// child wrote it down before executing it) and replays in a child.
+	if raw, rerr := os.ReadFile(dump); rerr == nil && len(raw) > 0 {
+		rp := &Replay{Property: opt.Prop, Engine: e.Name(), VerifSeed: opt.Seed, RunIndex: idx, Tier: opt.Tier,
+			Signature: v.Signature, Oracle: v.Oracle, Event: -1, Detail: v.Detail, LogHash: "", Minimised: false, Trace: raw}
+		if p, werr := WriteReplay(rp); werr == nil {
+			preparedReplays[v.Signature] = p
+		}
+	}
+	return v, ""
+}
+
+// fatalFrame extracts from a Go runtime report the innermost mltwist frame
+// that is not part of the harness (empty if the harness comes first) and the
+// first line of the report.
+func fatalFrame(txt string) (fn, first string) {
 	for _, l := range strings.Split(txt, "\n") {
 		l = strings.TrimSpace(l)
 		if strings.HasPrefix(l, "mltwist/") {
@@ -572,18 +598,13 @@ func rerunCrashed(opt Options, e Engine, idx int) (*Violation, string) {
 			break
 		}
 	}
-	if fn == "" {
-		return nil, "runtime report names no mltwist frame first"
-	}
-	first := ""
 	for _, l := range strings.Split(txt, "\n") {
 		if strings.HasPrefix(l, "fatal error:") || strings.HasPrefix(l, "runtime:") {
 			first = l
 			break
 		}
 	}
-	return &Violation{Property: opt.Prop, Oracle: "no-crash", Signature: "fatal/" + fn, Event: -1,
-		Detail: "process died with a Go runtime fatal error: " + first}, ""
+	return fn, first
 }
 
 // shrinkAndReplay runs the minimiser in a child (engines may need process
@@ -718,6 +739,41 @@ func ReplayFile(path string, quiet bool, withKnown bool) int {
 	if strings.HasPrefix(rp.Signature, "hang/") {
 		ReplayExpect = &struct{ Prop, Sig, Path string }{rp.Property, rp.Signature, path}
 	}
+	if strings.HasPrefix(rp.Signature, "fatal/") && os.Getenv("VERIF_REPLAY_INPROC") == "" {
+		// executing this trace is expected to kill the process: do it in a child
+		args := []string{"replay", "-quiet"}
+		if withKnown {
+			args = append(args, "-with-known")
+		}
+		cmd := exec.Command(selfExe(), append(args, path)...)
+		cmd.Env = append(os.Environ(), "VERIF_REPLAY_INPROC=1")
+		var stderr bytes.Buffer
+		cmd.Stderr = &limitedWriter{w: &stderr, n: 1 << 20}
+		out, cerr := cmd.Output()
+		if cerr == nil {
+			fmt.Printf("replay: no violation (property %s holds on this trace now)\n", rp.Property)
+			return 0
+		}
+		txt := stderr.String()
+		if strings.Contains(txt, "fatal error:") || strings.Contains(txt, "goroutine ") {
+			if fn, first := fatalFrame(txt); fn != "" {
+				if "fatal/"+fn == rp.Signature {
+					fmt.Printf("replay: reproduced oracle=no-crash signature=%s detail=process died with a Go runtime fatal error: %s\n", rp.Signature, first)
+				} else {
+					fmt.Printf("replay: different violation: fatal/%s (recorded %s): %s\n", fn, rp.Signature, first)
+				}
+				fmt.Printf("VIOLATION property=%s replay=%s\n", rp.Property, path)
+				return 1
+			}
+			fmt.Fprintf(os.Stderr, "HARNESS: replay child died in the harness:\n%s\n", txt)
+			return 2
+		}
+		os.Stdout.Write(out) // an ordinary verdict of the child (different violation, or trouble)
+		if ee, ok := cerr.(*exec.ExitError); ok {
+			return ee.ExitCode()
+		}
+		return 2
+	}
 	ctx := NewCtx(rp.Property, tol, log)
 	e.Execute(tr, ctx)
 	if ctx.Violation == nil {
@@ -755,6 +811,11 @@ func One(opt Options, idx int, verbose bool) int {
 	}
 	r := NewRand(RunSeed(opt.Seed, e.Name(), opt.Prop, idx))
 	tr := e.Generate(r, opt.Prop, opt.Tier)
+	if dump := os.Getenv("VERIF_DUMP_TRACE"); dump != "" {
+		if raw, err := json.Marshal(tr); err == nil {
+			os.WriteFile(dump, raw, 0o644) // before executing: the execution may kill the process
+		}
+	}
 	var log io.Writer
 	if verbose {
 		raw, _ := json.MarshalIndent(tr, "", " ")
